@@ -82,6 +82,11 @@ func constrainUnions(schema *jsonschema.Schema) {
 		}
 	}
 
+	// an entry of `passes` holds one transformation: the loader refuses several
+	if definition, found := schema.Definitions["YamlCompilerPass"]; found {
+		definition.MaxProperties = &one
+	}
+
 	// a rule that carries its selector inline (`rename: {by_object: Panel, as: Row}`) needs
 	// one of the criteria of that selector
 	for _, definition := range schema.Definitions {
